@@ -39,7 +39,7 @@ func (c08) Runs(tier string) int {
 func (p c08) Run(runseed uint64, tier string, acc *Acc) []*core.Violation {
 	r := core.NewRng(runseed)
 	fo := fileOpts(tier, 1, r.Chance(1, 2))
-	if r.Chance(1, 200) {
+	if r.Chance(1, 300) {
 		// a footer beyond 64 KiB: hundreds of row groups of a wide shape
 		fo.Shapes = []string{"flat", "flatb", "nested", "nestedb"}
 		fo.ManyPct, fo.ManyMax = 100, 260
